@@ -370,6 +370,9 @@ def run(ctx: Ctx) -> None:
         return
     from . import c05
 
+    from . import c15
+
+    c15.run(Alias(ctx, "C16.R5", "graceful shutdown has the same meaning on both workers: trio bounds the connection handlers with now + graceful_timeout (an absolute deadline), asyncio with wait_for(graceful_timeout) (C15.R2/R1)", only={"C15.R2"}))
     c05.run(Alias(ctx, "C16.R4", "an application failure is contained the same way by both workers: logged, answered through send(None), never re-raised into the connection's task group - including failures wrapped in an exception group on trio (C05.R1)", only={"C05.R1"}))
 
 
